@@ -164,6 +164,7 @@ func (s *TunnelServiceHandler) openReverseTunnel(stream tunnelpb.TunnelService_O
 	_ = stream.SendHeader(metadata.Pairs(grpctunnelNegotiateKey, grpctunnelNegotiateVal))
 
 	ch := newReverseChannel(stream, &s.tunnelOpts, s.unregister)
+	verifYield("rev.created", 0)
 	defer ch.Close()
 
 	var key interface{}
@@ -172,10 +173,12 @@ func (s *TunnelServiceHandler) openReverseTunnel(stream tunnelpb.TunnelService_O
 	}
 
 	s.reverse.add(ch, key)
+	verifYield("rev.addglobal", 0)
 	defer s.reverse.remove(ch)
 
 	rc := s.reverseChannelsForKey(key)
 	rc.add(ch, key)
+	verifYield("rev.addkey", 0)
 	defer rc.remove(ch)
 
 	if s.onReverseTunnelConnect != nil {
@@ -195,6 +198,7 @@ func (s *TunnelServiceHandler) unregister(ch *tunnelChannel) {
 		// already removed
 		return
 	}
+	verifYield("unreg.removedglobal", 0)
 
 	s.mu.Lock()
 	rc := s.reverseByKey[k]
